@@ -115,7 +115,8 @@ package ingress
 // a default-host path that could not get its backend still links the ingress
 // to the service, so that the ingress is retried when the service shows up
 //@ func (*converter).addDefaultHostBackend
-//@   props C01
+//@   props C01 C03
+//@   at call FindPath#1 assert same-type: $arg1 == uri && len($arg2) == 1 && $arg2[0] == match
 //@   at call TrackNames#1 assert link: $arg1 == source.Type && $arg2 == source.Namespace + "/" + source.Name && $arg3 == convtypes.ResourceService && $arg4 == fullSvcName
 //@ end
 
